@@ -11,7 +11,7 @@ PROPERTY = 'C07'
 LEVEL = 'exploration'
 RULE = ('Hypothesis: identity over mapped names (case variants), unmapped names, multi-valued / empty / non-ASCII values x policy {absent, default, per-SP, both} with '
         'attribute_restrictions {absent, None, name only, regex lists}, entity_categories subsets of the shipped modules, fail_on_missing_requested x SP metadata with 0-2 '
-        'AttributeConsumingServices (required/optional, by friendly name and/or name+format, value constraints, unsatisfiable requirements) x SP entity categories x '
+        'AttributeConsumingServices (required/optional spelled true/false/1/0, by friendly name and/or name+format, value constraints, unsatisfiable requirements) x SP entity categories x '
         '{create_authn_response, create_attribute_response}. Non-trivial = the model forbids at least one (attribute, value) of the identity; distinct = distinct case.')
 ASSUMPTIONS = ['reference policy = most permissive reading of the statement and docs/howto/config.rst (subset oracle: releasing less is never flagged)',
                'responses are unsigned (no tool involved); output read with stdlib ElementTree']
@@ -53,7 +53,7 @@ def case_strategy():
         policy = st.one_of(st.none(), st.fixed_dictionaries({}, optional={'default': entry(), SP: entry()}))
         mapped = [k for k in keys if k in OIDS] or NAMES
         req = st.fixed_dictionaries({'attr': st.one_of(st.sampled_from(mapped), st.sampled_from(NAMES)), 'by': st.sampled_from(['friendly', 'name+format', 'both', 'name-only']),
-                                     'required': st.booleans(), 'values': st.lists(st.sampled_from(VALUES[:6]), max_size=2)})
+                                     'required': st.sampled_from([True, False, True, False, '1', '0']), 'values': st.lists(st.sampled_from(VALUES[:6]), max_size=2)})
         return st.fixed_dictionaries({'identity': st.just(identity), 'policy': policy, 'services': st.lists(st.lists(req, min_size=1, max_size=4), max_size=2),
                                       'sp_cats': st.lists(st.sampled_from(sorted(CATS)), max_size=3, unique=True),
                                       'call': st.sampled_from(['authn', 'authn', 'attribute'])})
@@ -66,7 +66,10 @@ def sp_metadata(case, entityid=None, acs=None):
     for svc in case['services']:
         rl = []
         for r in svc:
-            d = {'name': OIDS[r['attr']], 'required': r['required'], 'values': [v for v in r['values'] if v]}
+            # xs:boolean has two lexical forms per value: isRequired may be spelled true/false or 1/0
+            d = {'name': OIDS[r['attr']], 'required': r['required'] in (True, '1'), 'values': [v for v in r['values'] if v]}
+            if isinstance(r['required'], str):
+                d['required_spelling'] = r['required']
             if r['by'] in ('friendly', 'both'):
                 d['friendly_name'] = r['attr']
             if r['by'] in ('name+format', 'both'):
@@ -160,7 +163,7 @@ def sequence_strategy():
     base = case_strategy()
     hot = ['eduPersonPrincipalName', 'mail', 'displayName', 'cn', 'eduPersonAffiliation', 'eduPersonScopedAffiliation', 'givenName', 'sn']
     spdecl = st.fixed_dictionaries({'services': st.lists(st.lists(st.fixed_dictionaries({
-        'attr': st.one_of(st.sampled_from(hot), st.sampled_from(NAMES)), 'by': st.sampled_from(['friendly', 'both']), 'required': st.sampled_from([True, True, False]),
+        'attr': st.one_of(st.sampled_from(hot), st.sampled_from(NAMES)), 'by': st.sampled_from(['friendly', 'both']), 'required': st.sampled_from([True, True, False, '1', '0', '0']),
         'values': st.just([])}), min_size=1, max_size=5), max_size=1),
         'sp_cats': st.one_of(st.just(['coco']), st.just(['coco']), st.just(['rs']), st.lists(st.sampled_from(sorted(CATS)), max_size=2, unique=True))})
     ident = st.one_of(st.dictionaries(st.sampled_from(NAMES), st.lists(st.sampled_from(VALUES), min_size=1, max_size=2), min_size=3, max_size=9),
